@@ -639,6 +639,7 @@ package pokertable
 //@   ensures order-kept: len(newPS) == cnt(k, 0, 10, k < len(currentPlayers) && !leavingID(leavePlayerIDs, currentPlayers[k].PlayerID))
 //@             && forall(i, 0, 10, i < len(currentPlayers) && !leavingID(leavePlayerIDs, currentPlayers[i].PlayerID)
 //@                   ==> newPS[cnt(k, 0, i, !leavingID(leavePlayerIDs, currentPlayers[k].PlayerID))] == currentPlayers[i])
+//@   ensures hand-entries-kept-between-hands: !(status == TableStateStatus_TableGameOpened || status == TableStateStatus_TableGamePlaying || status == TableStateStatus_TableGameSettled) ==> sameslice(newGPI, GPI(te))
 //@   ensures seat-map-rebuilt: len(newSeatMap) == tableMaxSeatCount && fresh(newSeatMap)
 //@             && forall(j, 0, 10, j < len(newPS) ==> newSeatMap[newPS[j].Seat] == j)
 //@             && forall(s, 0, 10, s < tableMaxSeatCount ==> newSeatMap[s] == -1 || (0 <= newSeatMap[s] && newSeatMap[s] < len(newPS) && newPS[newSeatMap[s]].Seat == s))
